@@ -1591,6 +1591,8 @@ class A(Contingency):
     description = "Hit"
 
     def compute_from_abcd(self, a, b, c, d):
+        if a + b + c + d == 0:
+            return np.nan
         return 1.0 * a / (a + b + c + d)
 
 
@@ -1599,6 +1601,8 @@ class B(Contingency):
     description = "False alarm"
 
     def compute_from_abcd(self, a, b, c, d):
+        if a + b + c + d == 0:
+            return np.nan
         return 1.0 * b / (a + b + c + d)
 
 
@@ -1607,6 +1611,8 @@ class C(Contingency):
     description = "Miss"
 
     def compute_from_abcd(self, a, b, c, d):
+        if a + b + c + d == 0:
+            return np.nan
         return 1.0 * c / (a + b + c + d)
 
 
@@ -1615,6 +1621,8 @@ class D(Contingency):
     description = "Correct rejection"
 
     def compute_from_abcd(self, a, b, c, d):
+        if a + b + c + d == 0:
+            return np.nan
         return 1.0 * d / (a + b + c + d)
 
 
@@ -1635,6 +1643,8 @@ class Ets(Contingency):
 
     def compute_from_abcd(self, a, b, c, d):
         N = a + b + c + d
+        if N == 0:
+            return np.nan
         ar = (a + b) / 1.0 / N * (a + c)
         if a + b + c - ar == 0:
             return np.nan
@@ -1651,6 +1661,8 @@ class FcstRate(Contingency):
     orientation = 0
 
     def compute_from_abcd(self, a, b, c, d):
+        if a + b + c + d == 0:
+            return np.nan
         return (a + b) / 1.0 / (a + b + c + d)
 
 
@@ -1691,6 +1703,8 @@ class Pc(Contingency):
     orientation = 1
 
     def compute_from_abcd(self, a, b, c, d):
+        if a + b + c + d == 0:
+            return np.nan
         return (a + d) / 1.0 / (a + b + c + d)
 
 
